@@ -144,8 +144,11 @@ func scenarios(quick bool) []Scenario {
 		{[]string{"=x", "", "=zzz"}, true, false, 1, 0},
 		{[]string{"A.=t", "=y"}, false, false, 1, 0},
 	}
+	if quick {
+		builds = builds[:3]
+	}
 	var per [][]Scenario
-	for _, b := range builds {
+	for bi, b := range builds {
 		var list []Scenario
 		dmgs := []string{"none", "first", "last", "all", "nodirs", "symlink"}
 		for _, dmg := range dmgs {
@@ -156,6 +159,9 @@ func scenarios(quick bool) []Scenario {
 				continue
 			}
 			for _, cons := range []string{"failfast", "writer", "writer-badpath", "printer"} {
+				if quick && bi == 2 && (cons == "writer" || cons == "printer") {
+					continue // quick: the 3-file build only with the consumers that fail early
+				}
 				for _, capacity := range []int{1, 2, 0} {
 					// capacities only matter when there can be >= 2 wounds
 					if capacity != 1 && dmg != "all" {
